@@ -55,6 +55,11 @@ ABS_NAMES = ["{J}/decoy/secret", "{J}/decoy", "/{J}/decoy/secret", "{J}/outside.
              "{J}/decoy/secret/../secret"]
 
 
+# the sibling jail/mail-old (same prefix as jail/mail)
+SIBLING_NAMES = ["../mail-old/secret", "../mail-old", "inbox/../../mail-old/secret", "/../mail-old/secret", "a/../../mail-old/secret/../secret",
+                 "../mail-old/new"]
+
+
 def escapes(name: str) -> bool:
     """Independent resolution: one leading '/' is the namespace prefix; the rest is a relative
     path under the root.  Anything that normalises to the root itself, above it, or is
@@ -160,7 +165,7 @@ def work(unit):
                     if x.kind == "untagged" and x.typ in ("LIST", "LSUB") and len(x.data) >= 3:
                         ln = x.data[2]
                         ln = bytes(ln).decode("latin-1") if isinstance(ln, bytes) else str(ln)
-                        if escapes(ln) or "secret" in ln or "decoy" in ln:
+                        if escapes(ln) or "secret" in ln or "decoy" in ln or "mail-old" in ln:
                             if os.path.isdir(os.path.join(str(w.maildir), ln.lstrip("/"))) and not escapes(ln):
                                 continue  # a folder really created inside the root with that name
                             fail("C09.outside-name-listed", ln)
@@ -222,7 +227,7 @@ def run(tier, seed, jobs) -> Result:
             if tier == "quick" and how == "literal" and len(n.split("/")) > 2:
                 continue
             cases.append((n, how))
-    for n in ABS_NAMES:
+    for n in ABS_NAMES + SIBLING_NAMES:
         for how in ("quoted", "literal"):
             cases.append((n, how))
     units = [(tmpl, cases[i : i + 12]) for i in range(0, len(cases), 12)]
